@@ -181,8 +181,7 @@ def through_fields(rng):
                 if data is None or len(data) != blk.nBytes:
                     bad.append(f"C13:valid_label_refused type {rt} width {W} length {len(text)}")
                     continue
-                from basictdf.basictdf import _get_block_class
-                back = _get_block_class(BlockType(rt))._build(io.BytesIO(data), blk.format.value)
+                back = type(blk)._build(io.BytesIO(data), blk.format.value)
                 if blocks.encode(back) != data:
                     bad.append(f"C13:label_roundtrip type {rt}")
             else:
